@@ -222,6 +222,12 @@ func (c *checker) checkC01() {
 		}
 	}
 	// (d) write-write conflicts among committed transactions
+	byStart := map[uint64]*TxnHist{}
+	for _, h := range c.hist {
+		if h.StartTS != 0 {
+			byStart[h.StartTS] = h
+		}
+	}
 	for i := range fins {
 		a := fins[i]
 		if !a.o.committed || a.o.mixed {
@@ -242,6 +248,11 @@ func (c *checker) checkC01() {
 			for _, w := range c.truth[k].Writes {
 				if w.StartTS == a.h.StartTS || w.Kind == kvrpcpb.Op_Rollback || w.Kind == kvrpcpb.Op_Lock {
 					continue
+				}
+				if b := byStart[w.StartTS]; b != nil && b.Prog.Pessimistic {
+					if _, locked := b.Locked[k]; !locked {
+						continue // the other writer is a pessimistic transaction that wrote k without locking it: no conflict check in the protocol
+					}
 				}
 				if w.CommitTS > lo && w.CommitTS < cts {
 					c.fail(P, "write-write-conflict", fmt.Sprintf("txn%d.%s", a.h.Prog.ID, k), "txn %d (start %d, conflict window (%d,%d]) and txn with start %d (commit %d) both committed writes on %q", a.h.Prog.ID, a.h.StartTS, lo, cts, w.StartTS, w.CommitTS, k)
